@@ -4,7 +4,9 @@
      {"ev":"sent","dir":d,"total":n}                     the writer of direction d has offered n position-coded bytes
      {"ev":"recv","dir":d,"off":o,"len":n,"bad":b}       the other side obtained n bytes which, by their position code, start at offset o; b of them are not f(position)
      {"ev":"end","dir":d}                                the receiver of direction d stopped (everything must have arrived)
-     {"ev":"unblock","cause":"close"|"peergone","returned":b}   a Read that was blocked when the transport was closed / the peer went away
+     {"ev":"kept","dir":d,"changed":n}                   the receiver kept every chunk as it was handed out; n of them no longer hold what they held then
+     {"ev":"unblock","cause":c,"returned":b}             a Read that was blocked when the transport was closed / the peer went away (c = "close" | "peergone" |
+                                                         "close-with-hung-peer"), the Read after that one ("read-after-peergone") and the Close that follows ("close-after-peergone")
      {"ev":"e2e","kind":"cli"|"netconf","same":b}        a whole driver session over the transport compared with the same session over the in-memory pipe
    A recv must continue exactly where the previous one ended (in order, exactly once), stay within what was sent, and carry
    no foreign byte; at "end" nothing may be missing; a blocked Read must have returned.                                  *)
@@ -21,10 +23,12 @@ Recv == /\ l <= Len(Trace) /\ Ev.ev = "recv" /\ l' = l + 1
         /\ Ev.len >= 1 /\ Ev.off = got[Ev.dir] /\ Ev.off + Ev.len <= total[Ev.dir] /\ Ev.bad = 0
         /\ got' = [got EXCEPT ![Ev.dir] = @ + Ev.len] /\ UNCHANGED total
 End == /\ l <= Len(Trace) /\ Ev.ev = "end" /\ l' = l + 1 /\ got[Ev.dir] = total[Ev.dir] /\ UNCHANGED <<total, got>>
+\* what a read returned belongs to the caller: a later read does not write into it
+Kept == /\ l <= Len(Trace) /\ Ev.ev = "kept" /\ l' = l + 1 /\ Ev.changed = 0 /\ UNCHANGED <<total, got>>
 Unblock == /\ l <= Len(Trace) /\ Ev.ev = "unblock" /\ l' = l + 1 /\ Ev.returned /\ UNCHANGED <<total, got>>
 \* an end-to-end CLI / NETCONF session over the transport must give the results the ideal pipe gives
 E2E == /\ l <= Len(Trace) /\ Ev.ev = "e2e" /\ l' = l + 1 /\ Ev.same /\ UNCHANGED <<total, got>>
-Next == Reset \/ Sent \/ Recv \/ End \/ Unblock \/ E2E
+Next == Reset \/ Sent \/ Recv \/ End \/ Kept \/ Unblock \/ E2E
 Spec == Init /\ [][Next]_vars
 ASSUME TLCSet(1, 0)
 HW == TLCSet(1, IF TLCGet(1) < l THEN l ELSE TLCGet(1))
